@@ -129,3 +129,25 @@ Theorem source_shape_as_modelled :
   Gen.C10.set_on_chain_mutations = ["snapshot.Chains = append(snapshot.Chains, chainReferenceID)"]%string.
 Proof. exact source_shape. Qed.
 Print Assumptions source_shape_as_modelled.
+
+
+(* --- source translation tie (GenFn) --- *)
+(* The Go function bodies named below are re-translated from the source on every check
+   (harness/cmd/extract/gotrans*.go -> GenFn/*.v, semantics of the Go subset: Trans/GoSem.v).
+   Each theorem states that the hand-written model function equals the translated body for all
+   inputs (hypotheses are Go type ranges / the 256-bit range of math.Int only); the proofs are in
+   Trans/C10Fn.v.  A readable change of the Go body breaks the proof, an unreadable one breaks the
+   translator.  See design/GoTrans.md. *)
+From Paloma Require Trans.GoSem Trans.GoSemFacts Trans.C10Fn.
+
+Theorem power_of_model_is_translation_of_source :
+  forall share total : Z,
+  GenFn.NormalizePower.normalizePower share total = GoSem.Val (Compass.power_of share total).
+Proof. exact Trans.C10Fn.power_of_eq. Qed.
+Print Assumptions power_of_model_is_translation_of_source.
+
+Theorem is_enough_model_is_translation_of_source :
+  forall powers : list Z,
+  GenFn.IsEnoughToReachConsensus.isEnoughToReachConsensus powers = Compass.is_enough powers.
+Proof. exact Trans.C10Fn.is_enough_eq. Qed.
+Print Assumptions is_enough_model_is_translation_of_source.
